@@ -371,7 +371,6 @@ class PowerOfTwo(IQuantizer):
       self.name = "quantized_po2"
 
     elif quantizer.__class__.__name__ == "quantized_relu_po2":
-      super().__init__()
       self.is_signed = 0
       self.name = "quantized_relu_po2"
 
